@@ -781,7 +781,18 @@ int main(int argc, char** argv) {
     m9.group = "M9";
     m9.chunk = 4;
     m9.rule = "FindMember(ptr, N) and FindMember(StringView(ptr, N)) instantiated with N as a COMPILE-TIME constant for every N in 0..48: objects holding N near misses (one byte changed at each position) before the exact name, a longer and a shorter name, with and without the exact name";
-    fams = {m1, m2, m3, m4, m5, m6, m7, m8, m9};
+    // M10: SHORT operands (1..48 bytes: the word-ladder paths) with TWO differing bytes whose xor-differences are
+    // chosen so that they cancel under +, -, ^ or a shift when a comparison folds partial results (0x80 / 0x80,
+    // 0xff / 0x01, equal values), at every pair of positions; heap (ASan) / both operands at a page end and inside
+    // a page (production)
+    static const uint8_t X10[6] = {0x01, 0x80, 0xff, 0x7f, 0xfe, 0x40};
+    vr::Family m10;
+    m10.name = "M10_two_xor_differences_short";
+    m10.count = 48ull * 48 * 48 * 36 * 2;
+    m10.chunk = 1 << 14;
+    m10.group = "M10";
+    m10.rule = "every length 2..48, every pair of positions i<j, xor-differences (d1,d2) from {01,80,ff,7f,fe,40}^2 (all 36) applied to a base text with bytes >= 0x80 and < 0x80: never equal, sign as memcmp; operands on the heap (ASan) or both ending at an unmapped page and both inside a page (production)";
+    fams = {m1, m2, m3, m4, m5, m6, m7, m8, m9, m10};
 #ifdef SONIC_DYNAMIC_DISPATCH
     fams = {m3, m5, m8, m9};
 #endif
@@ -815,6 +826,49 @@ int main(int argc, char** argv) {
         if (eq != (ref == 0) || eq2 != (ref == 0)) ctx.violation("memcmpeq", "memcmpeq", desc, "%s: InlinedMemcmpEq=%d/%d but memcmp=%d", desc.c_str(), (int)eq, (int)eq2, ref);
         if (sgn(c) != sgn(ref) || sgn(c2) != -sgn(ref)) ctx.violation("memcmp_sign", "memcmp_sign", desc, "%s: InlinedMemcmp=%d (swapped %d) but memcmp=%d", desc.c_str(), c, c2, ref);
       };
+      if (f.name[1] == '1' && f.name[2] == '0') {
+        unsigned place = (unsigned)(idx % 2);
+        idx /= 2;
+        uint8_t d2 = X10[idx % 6], d1 = X10[(idx / 6) % 6];
+        idx /= 36;
+        unsigned j = (unsigned)(idx % 48);
+        idx /= 48;
+        unsigned i = (unsigned)(idx % 48);
+        unsigned len = (unsigned)(idx / 48) + 1;
+        if (!(i < j && j < len)) {
+          ctx.skip();
+          return;
+        }
+        std::vector<uint8_t> va(len), vb(len);
+        for (unsigned k = 0; k < len; k++) va[k] = vb[k] = (uint8_t)((k % 3 == 0 ? 0x80 : 'A') + (k * 7) % 50);
+        vb[i] ^= d1;
+        vb[j] ^= d2;
+        std::string desc = "len=" + std::to_string(len) + " xor " + std::to_string(d1) + "@" + std::to_string(i) + " and xor " + std::to_string(d2) + "@" + std::to_string(j) + (place ? " inside a page" : " at the page ends");
+#if HAVE_ASAN
+        if (place) {
+          ctx.skip();
+          return;
+        }
+#endif
+        if (ctx.want_sample) ctx.sample(desc);
+        ctx.nontriv();
+#if HAVE_ASAN
+        uint8_t* a = (uint8_t*)std::malloc(len);
+        uint8_t* b = (uint8_t*)std::malloc(len);
+        std::memcpy(a, va.data(), len);
+        std::memcpy(b, vb.data(), len);
+        verdict(a, b, len, desc);
+        std::free(a);
+        std::free(b);
+#else
+        uint8_t* a = place ? cenv.a.lo() + 1024 + (i % 32) : cenv.a.hi() - len;
+        uint8_t* b = place ? cenv.b.lo() + 2048 + (j % 32) : cenv.b.hi() - len;
+        std::memcpy(a, va.data(), len);
+        std::memcpy(b, vb.data(), len);
+        verdict(a, b, len, desc);
+#endif
+        return;
+      }
       if (f.name[1] == '6' || f.name[1] == '7') {
         unsigned len, i, j, pi;
         if (f.name[1] == '6') {
